@@ -188,6 +188,7 @@ func without(l []string, drop string) []string {
 // hostileCaller overwrites byte slices the API handed out earlier (encodings of the identity and of G, Order):
 // returned slices are the caller's, so this must never influence a later call.
 func hostileCaller() {
+	pt.RecoveredPanics()
 	for _, b := range [][]byte{secp256k1.NewElement().Encode(), secp256k1.NewElement().EncodeUncompressed(), secp256k1.Base().Encode(),
 		secp256k1.Base().EncodeUncompressed(), secp256k1.NewElement().XCoordinate(), secp256k1.Order()} {
 		b = b[:cap(b)]
